@@ -39,6 +39,11 @@ CHECKS['C13'] = ('every residue string of length 1..3 (quick) / 1..4 (thorough) 
                  'builder against an own rule application, variable builder (mode skip) against the exhaustive subset '
                  'enumeration (every form exactly once), weak clauses for the other modes and overlapping rule sets',
                  'DESIGN.md section 4 / C13')
+CHECKS['C02'] = ('deviation-bounded product space (<=3 quick / <=4 thorough of 17 axes: 9 modification slots with '
+                 'catalogue modifications of known mass and multipliers 1-3; charge argument, charge/adducts in the '
+                 'string, adduct argument over 9 ions x counts {-2,-1,1,2,3}, ion type, isotope, loss, precision, average '
+                 'mode) against an independent mass calculator over a frozen NIST table; all 1-/2-letter residue strings; '
+                 'every Unimod entry', 'DESIGN.md section 4 / C02')
 NOT_APPLICABLE = {}
 
 
